@@ -228,6 +228,35 @@ macro_rules! inherent_rows {
             format!("{tag}::FIELD_SIZE_POWER_OF_TWO"),
             Box::new(move || eq("2^(8*N_8) mod m", &N::from_bytes_le(&<$T>::FIELD_SIZE_POWER_OF_TWO.to_bytes_le()), &((N::one() << (8 * f.nbytes)) % &f.m))),
         ));
+        // every published element constant must be held in *reduced* internal form: the literals are
+        // stored verbatim, and an unreduced one has the right canonical bytes but is not `==` to the
+        // same value obtained any other way, and subtracts / negates wrongly
+        $rows.push((
+            format!("{tag}::element-constants-in-reduced-form"),
+            Box::new(move || {
+                let consts: Vec<(&str, $T)> = vec![
+                    ("ZERO", <$T>::ZERO),
+                    ("ONE", <$T>::ONE),
+                    ("MULTIPLICATIVE_GENERATOR", <$T>::MULTIPLICATIVE_GENERATOR),
+                    ("TWO_ADIC_ROOT_OF_UNITY", <$T>::TWO_ADIC_ROOT_OF_UNITY),
+                    ("FIELD_SIZE_POWER_OF_TWO", <$T>::FIELD_SIZE_POWER_OF_TWO),
+                ];
+                for (name, c) in consts {
+                    let bytes = c.to_bytes_le();
+                    let parsed = <$T>::from_le_bytes_mod_order(&bytes);
+                    if !(c == parsed) || !(parsed == c) || c != parsed {
+                        return Err(format!("{name} is not `==` to the value parsed from its own canonical bytes (literal not in reduced form)"));
+                    }
+                    if c - parsed != <$T>::ZERO || parsed - c != <$T>::ZERO || (-c) + parsed != <$T>::ZERO {
+                        return Err(format!("{name} minus the value parsed from its own bytes is not zero (literal not in reduced form)"));
+                    }
+                    if (c + <$T>::ZERO).to_bytes_le() != bytes || (c * <$T>::ONE).to_bytes_le() != bytes {
+                        return Err(format!("{name}: c + 0 or c * 1 changes the canonical bytes"));
+                    }
+                }
+                Ok(())
+            }),
+        ));
         $rows.push((format!("{tag}::ZERO"), Box::new(move || eq("zero", &N::from_bytes_le(&<$T>::ZERO.to_bytes_le()), &N::zero()))));
         $rows.push((format!("{tag}::ONE"), Box::new(move || eq("one", &N::from_bytes_le(&<$T>::ONE.to_bytes_le()), &N::one()))));
         // metamorphic use of the reduction constant: reducing 2^(8*N_8) as a byte string
